@@ -272,6 +272,17 @@ def gen(tier, rng):
             for p in [0, 1, 64, 65]:
                 yield f"c17.b.parse_prec {r} {p} {xs(s)}"
 
+    # ---- the whole ASCII alphabet in every radix (a digit classifier that accepts one byte too many — a case fold by
+    # `| 0x20`, an off-by-one range end — shows on exactly that byte: seed C17-m6 accepted 0x10..0x19 as digits)
+    for r in radices:
+        for b in range(128):
+            ch = bytes([b])
+            yield f"c17.u.parse 1 {r} {xs(b'1' + ch + b'1')}"
+            yield f"c17.b.parse {r} {xs(ch)}"
+            if b % 4 == r % 4:
+                yield f"c17.u.parse 2 {r} {xs(ch + b'0')}"
+                yield f"c17.b.parse_prec {r} 128 {xs(b'10' + ch)}"
+
     # ---- formatting
     for r in radices:
         for n in FIXED_FMT:
